@@ -261,6 +261,8 @@ type gReq struct {
 	Agg         *[6]bool `json:"agg,omitempty"` // Aggregate(inlineFrame, function, filename, linenumber, columnnumber, address); nil = not called
 	VI          int      `json:"value_index"`
 	Mean        bool     `json:"mean,omitempty"`
+
+	keptPaths [][]graph.NodeInfo // call-tree mode only; set by the C05 runner, not serialised
 }
 
 func b2s(b bool) string {
@@ -291,6 +293,7 @@ func cleanTable(p *profile.Profile, clean func(string) string) string {
 	return w.String()
 }
 
+// keptPaths (call-tree mode) is passed through q.keptPaths when set.
 func (q *gReq) tokens(kept []graph.NodeInfo, hasKept bool, cleanTbl, canon string) string {
 	var sb strings.Builder
 	sb.WriteString(b2s(q.CallTree) + " " + b2s(q.ObjNames) + " " + b2s(q.OrigFnNames) + " ")
@@ -310,6 +313,18 @@ func (q *gReq) tokens(kept []graph.NodeInfo, hasKept bool, cleanTbl, canon strin
 		sb.WriteString("1 " + strconv.Itoa(len(kept)))
 		for _, ni := range kept {
 			sb.WriteString(" " + infoTok(ni))
+		}
+		sb.WriteString(" ")
+	}
+	if q.keptPaths == nil {
+		sb.WriteString("0 ")
+	} else {
+		sb.WriteString("1 " + strconv.Itoa(len(q.keptPaths)))
+		for _, path := range q.keptPaths {
+			sb.WriteString(" " + strconv.Itoa(len(path)))
+			for _, ni := range path {
+				sb.WriteString(" " + infoTok(ni))
+			}
 		}
 		sb.WriteString(" ")
 	}
